@@ -199,6 +199,14 @@ GEN_TIES = {
         "what": "the reception step no longer equals printcore._readline / Device.has_flow_control / Device.is_connected translated "
                 "from gscrib/printrun/printcore.py and device.py",
     },
+    "gcoder": {
+        "props": {"C15"},
+        "gen": "gen_gcoder.py", "gen_file": "GscribModel/Gen/GcoderSrc.lean", "tie": "GcoderTie", "validate": "harness.tie_gcoder",
+        "gens": [("gen_sender.py", "GscribModel/Gen/SenderSrc.lean"), ("gen_gcoder.py", "GscribModel/Gen/GcoderSrc.lean")],
+        "ties": ["GcoderTie"],
+        "what": "the job indexing the sender relies on (k-th line = all_layers[layer_idxs[k]][line_idxs[k]]) no longer follows from the "
+                "bookkeeping of GCode._preprocess / append / idxs translated from gscrib/printrun/gcoder.py",
+    },
     "dwrite": {
         "props": {"C16"},
         "gen": "gen_dwrite.py", "gen_file": "GscribModel/Gen/DirectWriteSrc.lean", "tie": "DirectWriteTie", "validate": "harness.tie_dwrite",
